@@ -58,6 +58,8 @@ This crate exposes a few features for controlling dependency usage:
 pub mod choose;
 /// Local backend for Rustic.
 pub mod local;
+#[cfg(feature = "verif-hooks")]
+pub mod verif;
 /// Utility functions for the backend.
 pub mod util;
 
